@@ -6,6 +6,7 @@ oracle (brute-force reading of the documented priority; dense reconstruction of 
 import math
 
 import common
+import c15_streams
 from common import coq_lit, Nat, opt, CoqRaw
 
 K = 12                      # spectrum values are s / 2^K with integer 0 <= s < 2^K
@@ -153,7 +154,7 @@ def coq_case(case, obs):
 
 def main(ctx):
     rng = ctx.rng
-    ctx.proof = common.check_proofs('C15')
+    ctx.proof = common.check_proofs('C15', extra_targets=['Model/TruncBookCheck.vo'])
     ncases = ctx.pick(3000, 40000)
     if not ctx.proof.ok:
         ncases *= 3          # intensified search when an obligation is broken
@@ -440,9 +441,12 @@ def main(ctx):
             ctx.count('decomp', c, nontrivial=sv['eps'] > 1e-20, sample={'opts': c['opts'], 'spec': c['spec'], 'eps': sv['eps'], 'chi': sv['chi']})
             if probs:
                 ctx.fail('oracle', '; '.join(probs), {'stream': 'decomp', 'case': c, 'impl': x}, match_key='C15:decomp')
+    # ---- root-input models svd_theta_book / eigh_rho_book on exact data (Model/TruncBookCheck.v);
+    #      decompose_theta_qr_based directly and through QRBasedTEBDEngine (dense oracle)
+    c15_streams.run(ctx, rng)
     ctx.assumptions += [
         'C15 model: spectra are integers (numerators of dyadic rationals), zeros handled as in the header of coq/Model/Truncate.v',
-        'C15 not modelled: float rounding inside np.log / np.linalg.norm (generators keep all compared quantities >= 2^-20 apart or exactly equal); LAPACK in svd_theta/eigh_rho (oracle only; the bookkeeping around it is compared with Model/TruncBook.v to 1e-9); decompose_theta_qr_based is not yet covered',
+        'C15 not modelled: float rounding inside np.log / np.linalg.norm (generators keep all compared quantities >= 2^-20 apart or exactly equal); LAPACK in svd_theta/eigh_rho (oracle only; the bookkeeping around it is compared with Model/TruncBook.v: squares-only variants to 1e-9 in stream book, root-input variants svd_theta_book/eigh_rho_book in streams svd-exact/eigh-exact by exact equality when every model value is dyadic and otherwise within 2^-50 (svd_theta) / 2^-49 (eigh_rho) relative, decided inside Coq); decompose_theta_qr_based has no Coq model: dense numpy oracle only (streams qr-direct, qr-engine)',
     ]
     return ctx.finish(RULE, 'theorems of coq/Props/C15.v for all spectra/options on the model; model tied to truncation.truncate by '
                       'vm_compute evaluation of every generated case; _combine_constraints regenerated from source')
@@ -451,4 +455,9 @@ def main(ctx):
 RULE = ('truncate: random integer spectra (length 1-40; exact ties, zeros, sorted/unsorted, unnormalised) x full option lattice '
         '(absent / None / values incl. unsatisfiable); a case is non-trivial when the spectrum has >= 2 distinct values; '
         'distinct = distinct (spectrum, options).  book: svd_theta/eigh_rho on (rotated) diagonal matrices with planted integer spectra, '
-        'non-trivial when something was truncated.  decomp: random block-sparse matrices x options, non-trivial when something was truncated.')
+        'non-trivial when something was truncated.  decomp: random block-sparse matrices x options, non-trivial when something was truncated.  '
+        'svd-exact / eigh-exact: permutation-planted integer spectra with rational roots (Pythagorean tuples with a Pythagorean prefix, '
+        'sum-of-squares-a-power-of-4 tuples, eigenvalue lists with kept/total a rational square; zeros; scaled by 2^-k) x options forcing the cut by '
+        'chi_max / svd_min / trunc_cut, non-trivial when truncated or non-degenerate.  qr-direct / qr-engine: decompose_theta_qr_based on two-site '
+        'wave functions of small random TFI / XXZ chains (no charge, parity, Sz) x chi_max / svd_min / trunc_cut / expansion rate / min_block_increase / '
+        'move_right / eig-based SVD, directly and through QRBasedTEBDEngine (real time, imaginary sweeps), non-trivial when something was truncated.')
